@@ -19,6 +19,10 @@ pub trait Carrier: Sized {
     fn gen_val(rng: &mut Rng, ty: &Ty, pos: Pos) -> Val;
     fn from_val(v: &Val) -> Option<Self>;
     fn same(&self, o: &Self) -> bool;
+    /// false where the typed impl deliberately rejects what the dynamic serializer of the embedding accepts
+    fn accepts(_ty: &Ty) -> bool {
+        true
+    }
 }
 
 macro_rules! native_carrier {
@@ -230,6 +234,9 @@ macro_rules! set_carrier {
             fn same(&self, o: &Self) -> bool {
                 self == o
             }
+            fn accepts(ty: &Ty) -> bool {
+                !matches!(ty, Ty::Vector(..))
+            }
         }
     };
 }
@@ -359,7 +366,7 @@ where
     let Some(x) = T::from_val(val) else { return "bad-case".to_owned() };
     let ct = to_column_type(ty);
     let res = serialize_any(&x, &ct, ctx);
-    let dom = classify(ty, val, true);
+    let dom = if T::accepts(ty) { classify(ty, val, true) } else { Dom::Out };
     check_bytes_ord(ty, val, dom, &res, ctx, !len_only);
     if let Ok(cell) = &res {
         let body = split_cell(cell, ctx);
@@ -384,6 +391,47 @@ fn run_ser<T: Carrier, U: SerializeValue + ?Sized>(ty: &Ty, val: &Val, ctx: &mut
     line(&res, false)
 }
 
+fn has_vector(t: &Ty) -> bool {
+    match t {
+        Ty::Vector(..) => true,
+        Ty::List(e) | Ty::Set(e) => has_vector(e),
+        Ty::Map(k, v) => has_vector(k) || has_vector(v),
+        Ty::Tuple(ts) => ts.iter().any(has_vector),
+        Ty::Udt(_, _, fs) => fs.iter().any(|f| has_vector(&f.1)),
+        Ty::Native(_) => false,
+    }
+}
+
+/// Typed decoder on an arbitrary cell body: never panics; what it accepts re-serializes to something it
+/// decodes to the same value (`deser ∘ ser ∘ deser = deser`).
+fn run_tdec_full<T>(name: &str, ty: &Ty, body: Option<Vec<u8>>, ctx: &mut Ctx) -> String
+where
+    T: Carrier + SerializeValue + for<'f, 'm> DeserializeValue<'f, 'm>,
+{
+    let ct = to_column_type(ty);
+    match typed_decode::<T>(&ct, body.as_deref()) {
+        None => "type-check-failed".to_owned(),
+        Some(Err(k)) => format!("err {}", k),
+        Some(Ok(x)) => {
+            let mut buf = Vec::new();
+            match x.serialize(&ct, CellWriter::new(&mut buf)) {
+                Err(e) => format!("ok reser-err {}", ser_kind(&e)),
+                Ok(_) => {
+                    let b2 = split_cell(&buf, ctx);
+                    // a decoded `None` / `Empty` element of a vector re-serializes into the known shapes C01-F2 / C01-F9
+                    let known_shape = has_vector(ty) && (name.contains("opt") || name.contains("mempty"));
+                    match typed_decode::<T>(&ct, b2.as_deref()) {
+                        Some(Ok(y)) if y.same(&x) => {}
+                        _ if known_shape => {}
+                        _ => ctx.fail("typed decode: deser(ser(deser b)) differs from deser b".to_owned()),
+                    }
+                    "ok".to_owned()
+                }
+            }
+        }
+    }
+}
+
 macro_rules! carriers {
     (full: [$($fname:literal => $ft:ty),* $(,)?], hashed: [$($hname:literal => $ht:ty),* $(,)?]) => {
         const FULL: &[&str] = &[$($fname),*];
@@ -392,6 +440,13 @@ macro_rules! carriers {
             Some(match name {
                 $($fname => run_full::<$ft>(ty, val, ctx, false),)*
                 $($hname => run_full::<$ht>(ty, val, ctx, true),)*
+                _ => return None,
+            })
+        }
+        fn run_tdec_registered(name: &str, ty: &Ty, body: Option<Vec<u8>>, ctx: &mut Ctx) -> Option<String> {
+            Some(match name {
+                $($fname => run_tdec_full::<$ft>(name, ty, body, ctx),)*
+                $($hname => run_tdec_full::<$ht>(name, ty, body, ctx),)*
                 _ => return None,
             })
         }
@@ -417,21 +472,21 @@ carriers!(
         "vec_blob" => Vec<Vec<u8>>, "vec_duration" => Vec<CqlDuration>, "vec_opt_i32" => Vec<Option<i32>>,
         "vec_opt_i64" => Vec<Option<i64>>, "vec_opt_string" => Vec<Option<String>>, "vec_vec_i32" => Vec<Vec<i32>>,
         "vec_mempty_i32" => Vec<MaybeEmpty<i32>>, "vec_mempty_varint" => Vec<MaybeEmpty<CqlVarint>>,
-        "vec_tup_i32_string" => Vec<(i32, String)>,
+        "vec_tup2_i32_string" => Vec<(i32, String)>,
         "bset_i32" => BTreeSet<i32>, "bset_string" => BTreeSet<String>, "bmap_i32_string" => BTreeMap<i32, String>,
         "bmap_string_vec_i32" => BTreeMap<String, Vec<i32>>,
-        "tup1_i32" => (i32,), "tup2_i32_string" => (i32, String), "tup3_opt" => (Option<i32>, Option<String>, Option<Vec<f32>>),
-        "tup2_nested" => ((i64,), Vec<i64>), "box_i32" => Box<i32>, "arc_string" => Arc<String>,
+        "tup1_i32" => (i32,), "tup2_i32_string" => (i32, String), "tup3_opt_i32_opt_string_opt_vec_f32" => (Option<i32>, Option<String>, Option<Vec<f32>>),
+        "tup2_tup1_i64_vec_i64" => ((i64,), Vec<i64>), "box_i32" => Box<i32>, "arc_string" => Arc<String>,
         // external crates (differential only)
-        "chrono_date" => chrono_04::NaiveDate, "chrono_datetime" => chrono_04::DateTime<chrono_04::Utc>,
-        "chrono_time" => chrono_04::NaiveTime, "time_date" => time_03::Date,
-        "time_offsetdatetime" => time_03::OffsetDateTime, "time_time" => time_03::Time,
+        "chronodate" => chrono_04::NaiveDate, "chronodatetime" => chrono_04::DateTime<chrono_04::Utc>,
+        "chronotime" => chrono_04::NaiveTime, "timedate" => time_03::Date,
+        "timeoffsetdatetime" => time_03::OffsetDateTime, "timetime" => time_03::Time,
         "bigint03" => num_bigint_03::BigInt, "bigint04" => num_bigint_04::BigInt,
-        "bigdecimal" => bigdecimal_04::BigDecimal, "vec_chrono_date" => Vec<chrono_04::NaiveDate>,
+        "bigdecimal" => bigdecimal_04::BigDecimal, "vec_chronodate" => Vec<chrono_04::NaiveDate>,
         "opt_bigint04" => Option<num_bigint_04::BigInt>, "bmap_bigint04_bigdecimal" => BTreeMap<num_bigint_04::BigInt, bigdecimal_04::BigDecimal>,
-        "tup2_time" => (time_03::Date, Option<time_03::Time>), "mempty_chrono_time" => MaybeEmpty<chrono_04::NaiveTime>,
-        "secret08_string" => secrecy_08::Secret<String>, "secret10_string" => secrecy_10::SecretString,
-        "secretbox10_i64" => secrecy_10::SecretBox<i64>,
+        "tup2_timedate_opt_timetime" => (time_03::Date, Option<time_03::Time>), "mempty_chronotime" => MaybeEmpty<chrono_04::NaiveTime>,
+        "secret08string" => secrecy_08::Secret<String>, "secret10string" => secrecy_10::SecretString,
+        "secretbox10i64" => secrecy_10::SecretBox<i64>,
     ],
     hashed: [
         "hset_i32" => HashSet<i32>, "hset_string" => HashSet<String>, "hmap_string_i64" => HashMap<String, i64>,
@@ -439,33 +494,33 @@ carriers!(
     ]
 );
 
-const SER_ONLY: &[&str] = &["str_ref", "bytes_ref", "cow_str", "varint_borrowed", "decimal_borrowed", "munset_i32", "vec_munset_i32", "tup2_munset"];
+const SER_ONLY: &[&str] = &["strref", "bytesref", "cowstr", "varintborrowed", "decimalborrowed", "munset_i32", "vec_munset_i32", "tup2_munset_string_opt_i64", "bmap_i32_munset_string"];
 
 fn run_ser_only(name: &str, ty: &Ty, val: &Val, ctx: &mut Ctx) -> Option<String> {
     Some(match name {
-        "str_ref" => run_ser::<String, str>(ty, val, ctx, |s| s.as_str()),
-        "bytes_ref" => {
+        "strref" => run_ser::<String, str>(ty, val, ctx, |s| s.as_str()),
+        "bytesref" => {
             let Some(x) = <Vec<u8>>::from_val(val) else { return Some("bad-case".to_owned()) };
             let ct = to_column_type(ty);
             let res = serialize_any(&x.as_slice(), &ct, ctx);
             check_bytes(ty, val, classify(ty, val, true), &res, ctx);
             line(&res, false)
         }
-        "cow_str" => {
+        "cowstr" => {
             let Some(x) = String::from_val(val) else { return Some("bad-case".to_owned()) };
             let ct = to_column_type(ty);
             let res = serialize_any(&Cow::Borrowed(x.as_str()), &ct, ctx);
             check_bytes(ty, val, classify(ty, val, true), &res, ctx);
             line(&res, false)
         }
-        "varint_borrowed" => {
+        "varintborrowed" => {
             let Val::Varint(b) = val else { return Some("bad-case".to_owned()) };
             let ct = to_column_type(ty);
             let res = serialize_any(&CqlVarintBorrowed::from_signed_bytes_be_slice(b), &ct, ctx);
             check_bytes(ty, val, classify(ty, val, true), &res, ctx);
             line(&res, false)
         }
-        "decimal_borrowed" => {
+        "decimalborrowed" => {
             let Val::Decimal(s, b) = val else { return Some("bad-case".to_owned()) };
             let ct = to_column_type(ty);
             let res = serialize_any(&CqlDecimalBorrowed::from_signed_be_bytes_slice_and_exponent(b, *s), &ct, ctx);
@@ -474,7 +529,8 @@ fn run_ser_only(name: &str, ty: &Ty, val: &Val, ctx: &mut Ctx) -> Option<String>
         }
         "munset_i32" => run_ser::<MaybeUnset<i32>, _>(ty, val, ctx, |x| x),
         "vec_munset_i32" => run_ser::<Vec<MaybeUnset<i32>>, _>(ty, val, ctx, |x| x),
-        "tup2_munset" => run_ser::<(MaybeUnset<String>, Option<i64>), _>(ty, val, ctx, |x| x),
+        "tup2_munset_string_opt_i64" => run_ser::<(MaybeUnset<String>, Option<i64>), _>(ty, val, ctx, |x| x),
+        "bmap_i32_munset_string" => run_ser::<BTreeMap<i32, MaybeUnset<String>>, _>(ty, val, ctx, |x| x),
         _ => return None,
     })
 }
@@ -486,14 +542,19 @@ fn gen_ser_only(name: &str, rng: &mut Rng) -> (Ty, Val) {
         (t, v)
     }
     match name {
-        "str_ref" | "cow_str" => g::<String>(rng),
-        "bytes_ref" => g::<Vec<u8>>(rng),
-        "varint_borrowed" => g::<CqlVarint>(rng),
-        "decimal_borrowed" => g::<CqlDecimal>(rng),
+        "strref" | "cowstr" => g::<String>(rng),
+        "bytesref" => g::<Vec<u8>>(rng),
+        "varintborrowed" => g::<CqlVarint>(rng),
+        "decimalborrowed" => g::<CqlDecimal>(rng),
         "munset_i32" => g::<MaybeUnset<i32>>(rng),
         "vec_munset_i32" => g::<Vec<MaybeUnset<i32>>>(rng),
+        "bmap_i32_munset_string" => g::<BTreeMap<i32, MaybeUnset<String>>>(rng),
         _ => g::<(MaybeUnset<String>, Option<i64>)>(rng),
     }
+}
+
+pub fn run_tdec(name: &str, ty: &Ty, body: Option<Vec<u8>>, ctx: &mut Ctx) -> String {
+    run_tdec_registered(name, ty, body, ctx).unwrap_or("bad-case".to_owned())
 }
 
 pub fn run_carrier(name: &str, ty: &Ty, val: &Val, ctx: &mut Ctx) -> String {
@@ -522,22 +583,74 @@ pub fn generate(rng: &mut Rng, tier: Tier, emit: &mut dyn FnMut(String)) {
             emit(format!("{} {} {} {}", kind_of(name), name, ty_str(&t), val_str(&v)));
         }
     }
-    // a carrier value bound to a type it was not made for (rejections must agree with the model);
-    // `MaybeEmpty` checks emptiability before the inner type and the set carriers reject vectors:
-    // there the carrier's answer differs from the embedding's by design, so they are left out
+    // a carrier value bound to a type it was not made for (rejections must agree with the model's
+    // transcription of the typed impl, `TypedCarrier.serCarrier`)
     for _ in 0..per * 10 {
         let name = *rng.pick(&names);
-        if name.contains("mempty") {
-            continue;
-        }
         let (_, v) = gen_registered(name, rng).unwrap_or_else(|| gen_ser_only(name, rng));
         let t = gen_ty(rng, 2);
-        if (name.contains("set_") || HASHED.contains(&name)) && matches!(t, Ty::Vector(..)) {
-            continue;
-        }
         if matches!(classify(&t, &v, true), Dom::Known(_)) {
             continue;
         }
         emit(format!("{} {} {} {}", kind_of(name), name, ty_str(&t), val_str(&v)));
+    }
+    // malformed / mutated cell bodies through the typed decoders (model-independent: no panic, idempotence)
+    for _ in 0..per * 12 {
+        let name = *rng.pick(FULL);
+        let Some((t, v)) = gen_registered(name, rng) else { continue };
+        let mut b = spec_body(&t, &v).unwrap_or_default();
+        match rng.below(6) {
+            0 => {}
+            1 => {
+                let cut = rng.below(b.len() as u64 + 1) as usize;
+                b.truncate(cut)
+            }
+            2 => {
+                let l = rng.range(1, 5) as usize;
+                b.extend(rng.bytes(l))
+            }
+            3 | 4 => {
+                if !b.is_empty() {
+                    let i = rng.below(b.len() as u64) as usize;
+                    b[i] = *rng.pick(&[0x00u8, 0xff, 0x80, 0x7f, 0x01, 0xfe]);
+                }
+            }
+            _ => {
+                let l = rng.below(20) as usize;
+                b = rng.bytes(l)
+            }
+        }
+        let t = if rng.chance(1, 8) { gen_ty(rng, 2) } else { t };
+        emit(format!("tdec {} {} {}", name, ty_str(&t), if rng.chance(1, 30) { "null".to_owned() } else { hex(&b) }));
+    }
+    // the two places where a typed impl answers differently from the dynamic serializer of its embedding:
+    // `MaybeEmpty` checks emptiability before the inner value; the set carriers reject vector types
+    for _ in 0..per * 2 {
+        let name = *rng.pick(&["mempty_i32", "mempty_uuid", "opt_mempty_i64", "vec_mempty_i32", "vec_mempty_varint", "mempty_chronotime"]);
+        let (t0, v) = gen_registered(name, rng).unwrap();
+        let bad = match rng.below(4) {
+            0 => Ty::Native(NativeType::Counter),
+            1 => Ty::Native(NativeType::Duration),
+            2 => Ty::List(Box::new(Ty::Native(NativeType::Int))),
+            _ => Ty::Map(Box::new(Ty::Native(NativeType::Int)), Box::new(Ty::Native(NativeType::Int))),
+        };
+        let t = match (&t0, name.starts_with("vec_")) {
+            (Ty::List(_), true) => Ty::List(Box::new(bad)),
+            (Ty::Set(_), true) => Ty::Set(Box::new(bad)),
+            (Ty::Vector(_, d), true) => Ty::Vector(Box::new(bad), *d),
+            _ => bad,
+        };
+        emit(format!("carrier {} {} {}", name, ty_str(&t), val_str(&v)));
+    }
+    for _ in 0..per * 2 {
+        let name = *rng.pick(&["bset_i32", "bset_string", "hset_i32", "hset_string"]);
+        let (t0, v) = gen_registered(name, rng).unwrap();
+        let (Ty::List(e) | Ty::Set(e)) = t0 else { continue };
+        let n = match &v {
+            Val::List(vs) | Val::Set(vs) => vs.len(),
+            _ => 0,
+        };
+        let dim = if rng.chance(3, 4) { n as u16 } else { rng.range(0, 4) as u16 };
+        emit(format!("{} {} {} {}", kind_of(name), name, ty_str(&Ty::Vector(e, dim)), val_str(&v)));
     }
 }
